@@ -41,6 +41,7 @@ impl CoapResponse {
             MessageClass::Response(Status::Valid) => &Status::Valid,
             MessageClass::Response(Status::Changed) => &Status::Changed,
             MessageClass::Response(Status::Content) => &Status::Content,
+            MessageClass::Response(Status::Continue) => &Status::Continue,
 
             MessageClass::Response(Status::BadRequest) => &Status::BadRequest,
             MessageClass::Response(Status::Unauthorized) => {
@@ -64,6 +65,16 @@ impl CoapResponse {
             MessageClass::Response(Status::UnsupportedContentFormat) => {
                 &Status::UnsupportedContentFormat
             }
+            MessageClass::Response(Status::Conflict) => &Status::Conflict,
+            MessageClass::Response(Status::RequestEntityIncomplete) => {
+                &Status::RequestEntityIncomplete
+            }
+            MessageClass::Response(Status::UnprocessableEntity) => {
+                &Status::UnprocessableEntity
+            }
+            MessageClass::Response(Status::TooManyRequests) => {
+                &Status::TooManyRequests
+            }
 
             MessageClass::Response(Status::InternalServerError) => {
                 &Status::InternalServerError
@@ -80,6 +91,9 @@ impl CoapResponse {
             }
             MessageClass::Response(Status::ProxyingNotSupported) => {
                 &Status::ProxyingNotSupported
+            }
+            MessageClass::Response(Status::HopLimitReached) => {
+                &Status::HopLimitReached
             }
             _ => &Status::UnKnown,
         }
